@@ -1,5 +1,6 @@
 import PGA.Spec.Net
 import Mathlib.Data.List.Perm.Subperm
+import Mathlib.Data.List.Induction
 /-! Helper lemmas for C17: the duplicate elimination, the push of new species, one pass over the rules, and the
 invariants of the work-list loop (`processed` / `unprocessed`). -/
 namespace PGA.Net
@@ -94,6 +95,34 @@ theorem nodup_pushNew (p ms u : List α) (h : (p ++ u).Nodup) : (p ++ pushNew p 
     · rename_i hm
       apply ih
       exact (List.perm_middle.nodup_iff).mpr (List.nodup_cons.mpr ⟨hm, h⟩)
+
+/-! ### the duplicate elimination inside one product list is redundant once new species are compared with both work lists -/
+
+theorem pushNew_append (p l1 l2 u : List α) : pushNew p (l1 ++ l2) u = pushNew p l2 (pushNew p l1 u) := by
+  induction l1 generalizing u with
+  | nil => rfl
+  | cons m ms ih =>
+    simp only [List.cons_append, pushNew]
+    split <;> exact ih _
+
+theorem dedup_snoc (l : List α) (x : α) : dedup (l ++ [x]) = if x ∈ l then dedup l else dedup l ++ [x] := by
+  simp only [dedup, List.reverse_append, List.reverse_cons, List.reverse_nil, List.nil_append, List.singleton_append, dedupRev,
+    List.mem_reverse]
+  split <;> simp
+
+theorem pushNew_dedup (p l u : List α) : pushNew p (dedup l) u = pushNew p l u := by
+  induction l using List.reverseRecOn with
+  | nil => rfl
+  | append_singleton l x ih =>
+    rw [dedup_snoc, pushNew_append]
+    by_cases hx : x ∈ l
+    · rw [if_pos hx, ih]
+      have : x ∈ p ++ pushNew p l u := by
+        by_cases hp : x ∈ p
+        · exact List.mem_append_left _ hp
+        · exact List.mem_append_right _ ((mem_pushNew p l u x).mpr (Or.inr ⟨hx, hp⟩))
+      simp [pushNew, this]
+    · rw [if_neg hx, pushNew_append, ih]
 
 /-! ### one pass over the rules for the popped species (lines 87-155) -/
 
